@@ -26,6 +26,7 @@ import (
 
 	sbytes "github.com/talostrading/sonic/bytes"
 	"verifmc/engine"
+	"verifmc/kern"
 )
 
 type mbState struct {
@@ -319,6 +320,81 @@ func mbLifecycle(req int) *engine.Violation {
 	return nil
 }
 
+// mbShmFiles lists the backing files in /dev/shm whose size is `size` (sizes used by mbFailedConstruction are
+// process-specific, so files of other processes never match).
+func mbShmFiles(size int64) []string {
+	var out []string
+	ents, _ := os.ReadDir("/dev/shm")
+	for _, e := range ents {
+		if !strings.HasPrefix(e.Name(), "sonic-mirrored-buffer-") {
+			continue
+		}
+		if fi, err := e.Info(); err == nil && fi.Size() == size {
+			out = append(out, e.Name())
+		}
+	}
+	return out
+}
+
+// mbFailedConstruction: the constructor is made to fail at each point that can be reached from outside — an
+// invalid size (before the file exists), an address-space reservation the kernel refuses (after the file exists
+// and has its size), a reservation whose length overflows — or, where the kernel grants the reservation, to
+// succeed and be destroyed. Either way the descriptor census, the list of backing files and the mappings must
+// be what they were.
+func mbFailedConstruction() (map[string]string, []engine.Violation) {
+	var out []engine.Violation
+	outcomes := map[string]string{}
+	p := syscall.Getpagesize()
+	own := (os.Getpid()%4096 + 1) * p // process-specific offset: identifies this process' files by size
+	sizes := []int{0, -1, -p, 1 << 36, 1 << 40, 1 << 44, 1 << 46, 1 << 47, 1 << 55, 1 << 62}
+	dirfd := kern.OpenCensusDir()
+	defer syscall.Close(dirfd)
+	for _, base := range sizes {
+		req := base
+		if base > 0 {
+			req += own
+		}
+		before := kern.Census(dirfd)
+		mapsBefore, _ := os.ReadFile("/proc/self/maps")
+		mb, err := sbytes.NewMirroredBuffer(req, false)
+		outcome := "failed"
+		if err == nil {
+			outcome = "succeeded+Destroy"
+			if mb.Size() != req {
+				out = append(out, *mbViol("mirrored.New/size", "NewMirroredBuffer(%d).Size()=%d", req, mb.Size()))
+			}
+			if derr := mb.Destroy(); derr != nil {
+				out = append(out, *mbViol("mirrored.Destroy/error", "Destroy() of a %d-byte buffer = %v", req, derr))
+			}
+		} else if mb != nil {
+			out = append(out, *mbViol("mirrored.New/buffer-and-error", "NewMirroredBuffer(%d) returned a buffer and %v", req, err))
+		}
+		cfg := fmt.Sprintf("construction,request=%d", req)
+		outcomes[fmt.Sprintf("%#x", base)] = fmt.Sprintf("%s (%v)", outcome, err)
+		if left := mbShmFiles(int64(req)); req > 0 && len(left) > 0 {
+			v := mbViol("mirrored.New/backing-file-left", "NewMirroredBuffer(%d) %s (%v) and left its backing file behind: /dev/shm/%s", req, outcome, err, strings.Join(left, " "))
+			v.Config = cfg
+			out = append(out, *v)
+			for _, n := range left {
+				os.Remove("/dev/shm/" + n)
+			}
+		}
+		added, removed, changed := before.Diff(kern.Census(dirfd))
+		if len(added)+len(removed)+len(changed) > 0 {
+			v := mbViol("mirrored.New/descriptor-left", "NewMirroredBuffer(%d) %s (%v): descriptors added %s removed %v changed %v", req, outcome, err, kern.DescribeFds(added), removed, changed)
+			v.Config = cfg
+			out = append(out, *v)
+		}
+		mapsAfter, _ := os.ReadFile("/proc/self/maps")
+		if nb, na := strings.Count(string(mapsBefore), "sonic-mirrored-buffer"), strings.Count(string(mapsAfter), "sonic-mirrored-buffer"); na > nb {
+			v := mbViol("mirrored.New/mapping-left", "NewMirroredBuffer(%d) %s (%v): %d mappings of a backing file are left", req, outcome, err, na-nb)
+			v.Config = cfg
+			out = append(out, *v)
+		}
+	}
+	return outcomes, out
+}
+
 func mbRequests(tier string) []int {
 	p := syscall.Getpagesize()
 	if tier == "thorough" {
@@ -348,9 +424,14 @@ func C11(tier string) *engine.Report {
 			rep.Add(*v)
 		}
 	}
+	nc, vs := mbFailedConstruction()
+	for _, v := range vs {
+		rep.Add(v)
+	}
+	rep.Coverage["constructions_refused_or_huge"] = nc
 	tot.Fill(rep, "reachable states of a real MirroredBuffer per requested size (1-6/8 pages and three sizes that are rounded up) under Claim/Commit/Consume with amounts on the half-page grid, size+1 and "+
 		"at most K odd amounts {1,u+1,size-1}, and Reset, BFS to fixpoint; state = implementation integers + model (head,used) + odd amounts spent; claims are judged by address against the ring model, "+
-		"filled with tags and read back through both mappings; plus one create/use/Destroy lifecycle per size checked against /proc/self/maps and the backing file")
+		"filled with tags and read back through both mappings; plus one create/use/Destroy lifecycle per size checked against /proc/self/maps and the backing file; plus 10 constructions with invalid, huge (2^36..2^62, refused by the kernel at the reservation or granted and destroyed) sizes checked against the descriptor census, /dev/shm and the mappings")
 	rep.Coverage["lifecycles"] = len(mbRequests(tier))
 	return rep
 }
@@ -360,6 +441,15 @@ func C11Replay(v engine.Violation, log func(string)) *engine.Violation {
 	if strings.HasPrefix(v.Config, "lifecycle") {
 		fmt.Sscanf(v.Config, "lifecycle,request=%d", &req)
 		return mbLifecycle(req)
+	}
+	if strings.HasPrefix(v.Config, "construction") {
+		_, vs := mbFailedConstruction()
+		for _, vv := range vs {
+			if vv.Sig == v.Sig {
+				return &vv
+			}
+		}
+		return nil
 	}
 	fmt.Sscanf(v.Config, "request=%d,odd<=%d", &req, &odd)
 	return mbSpec(req, odd).Replay(v.Path, log)
